@@ -7,6 +7,7 @@ import (
 	"fmt"
 	"os"
 	"sort"
+	"strings"
 	"testing"
 
 	"pgregory.net/rapid"
@@ -176,6 +177,8 @@ type lmExec struct {
 	foreign   int // violations of the property this run does not decide
 	c         *lmCase
 	a, b      *libmem.Allocator // b: twin that never sees GetOffer; Commit of a fresh offer = Allocate
+	b2        *libmem.Allocator // control twin of b
+	nondet    bool              // b and b2 disagreed: the allocator is not deterministic on this history
 	live      map[string]*lmReq
 	offers    []*lmOffer
 	mutations int
@@ -275,6 +278,10 @@ func (o *lmObs) diff(p *lmObs) string {
 var lmFocus = os.Getenv("VERIF_PROPERTY")
 
 func (e *lmExec) v06(clause, sig, f string, args ...any) *vfkit.Violation {
+	if strings.HasPrefix(sig, "twin-") && (e.nondet || e.controlDiverged()) {
+		e.labels["allocator-nondeterministic-on-this-history"] = true
+		return nil
+	}
 	if lmFocus == "C07" {
 		e.foreign++
 		return nil
@@ -287,6 +294,17 @@ func (e *lmExec) v07(clause, sig, f string, args ...any) *vfkit.Violation {
 		return nil
 	}
 	return &vfkit.Violation{Property: "C07", Clause: clause, Signature: sig, Detail: fmt.Sprintf(f, args...)}
+}
+
+// controlDiverged compares the observable state of the two offer-less twins.
+func (e *lmExec) controlDiverged() bool {
+	if e.b == nil || e.b2 == nil {
+		return false
+	}
+	if e.observe(e.b).diff(e.observe(e.b2)) != "" {
+		e.nondet = true
+	}
+	return e.nondet
 }
 
 func (e *lmExec) typeNodes(types int) uint64 {
@@ -461,6 +479,10 @@ func (e *lmExec) run() *vfkit.Violation {
 		return nil // machine refused (e.g. bad distances): trivial
 	}
 	e.b, _ = lmNewAllocator(e.c)
+	// control: a second twin that sees exactly what the first one sees. If the two
+	// ever disagree, the allocator's own choices (map iteration order) are not a
+	// function of the history for this case and the twin clauses are not judged.
+	e.b2, _ = lmNewAllocator(e.c)
 	e.live = map[string]*lmReq{}
 	e.labels = map[string]bool{}
 	if e.c.Expand != "" {
@@ -520,6 +542,9 @@ func (e *lmExec) run() *vfkit.Violation {
 			}
 			// twin: direct allocation of the same request
 			bz, bu, berr := e.b.Allocate(e.mkReq(rop))
+			if cz, cu, cerr := e.b2.Allocate(e.mkReq(rop)); (cerr == nil) != (berr == nil) || cz != bz || !sameUpdates(cu, bu) {
+				e.nondet = true
+			}
 			if (err == nil) != (berr == nil) || (err == nil && (bz != zone || !sameUpdates(bu, updates))) {
 				if v := e.v06("committing a fresh offer gives the same zone and updates as allocating directly; requesting offers never changes later results",
 					"twin-divergence", "%s: with offers in the history: zone %b updates %v err %v; without: zone %b updates %v err %v",
@@ -567,6 +592,9 @@ func (e *lmExec) run() *vfkit.Violation {
 			r, known := e.live[id]
 			zone, updates, err := e.a.Realloc(id, libmem.NodeMask(op.Aff), libmem.TypeMask(op.Types))
 			bz, bu, berr := e.b.Realloc(id, libmem.NodeMask(op.Aff), libmem.TypeMask(op.Types))
+			if cz, cu, cerr := e.b2.Realloc(id, libmem.NodeMask(op.Aff), libmem.TypeMask(op.Types)); (cerr == nil) != (berr == nil) || cz != bz || !sameUpdates(cu, bu) {
+				e.nondet = true
+			}
 			if (err == nil) != (berr == nil) || (err == nil && (bz != zone || !sameUpdates(bu, updates))) {
 				if v := e.v06("requesting offers never changes later results", "twin-divergence",
 					"%s: with offers: zone %b updates %v err %v; without: zone %b updates %v err %v", what, uint64(zone), updates, err, uint64(bz), bu, berr); v != nil {
@@ -615,6 +643,9 @@ func (e *lmExec) run() *vfkit.Violation {
 			_, known := e.live[id]
 			err := e.a.Release(id)
 			berr := e.b.Release(id)
+			if cerr := e.b2.Release(id); (cerr == nil) != (berr == nil) {
+				e.nondet = true
+			}
 			if (err == nil) != (berr == nil) {
 				if v := e.v06("requesting offers never changes later results", "twin-divergence", "%s: %v vs %v", what, err, berr); v != nil {
 					return v
@@ -687,6 +718,7 @@ func (e *lmExec) run() *vfkit.Violation {
 		case "reset":
 			e.a.Reset()
 			e.b.Reset()
+			e.b2.Reset()
 			e.live = map[string]*lmReq{}
 			e.offers = nil // offers straddling a reset are not judged
 			e.mutations++
